@@ -29,11 +29,11 @@ use zipora::fsa::version_sync::{
 };
 
 const HEADER: &str = r#"From ZV.Common Require Import Base Run.
-From ZV.C16 Require Import Model ModelSeq.
+From ZV.C16 Require Import Model ModelSeq ModelLazy.
 Open Scope N_scope.
-Definition case_t : Type := (concb_case + seq_case)%type.
+Inductive case_t := CConc (c : concb_case) | CSeq (c : seq_case) | CLazy (c : lazy_case).
 Definition ok (c : case_t) : bool :=
-  match c with inl c => concb_ok true c | inr c => seq_ok c end.
+  match c with CConc c => concb_ok true c | CSeq c => seq_ok c | CLazy c => lazy_ok c end.
 "#;
 
 // ------------------------------------------------------------------------------------------------
@@ -633,7 +633,7 @@ fn coq_conc(level: u8, progs: &[Vec<Op>], o: &RunOut, bulk: Option<u64>) -> Stri
     let tr: Vec<String> = o.trace.iter().map(|x| format!("({}, {}, {}, {}, {})", x.0, x.1, x.2, x.3, x.4)).collect();
     let rs: Vec<String> = o.results.iter().map(|r| coq_z_list(r.iter().cloned())).collect();
     // the bulk threshold of the shared LazyFreeList is a part of the case (LazyFreeList::new(): BULK_FREE_NUM = 32)
-    format!("inl ({}%N, {}%N, [{}], [{}], [{}]%N, [{}])", level, bulk.unwrap_or(LazyFreeList::BULK_FREE_NUM as u64), ps.join("; "), sched.join("; "), tr.join("; "), rs.join("; "))
+    format!("CConc ({}%N, {}%N, [{}], [{}], [{}]%N, [{}])", level, bulk.unwrap_or(LazyFreeList::BULK_FREE_NUM as u64), ps.join("; "), sched.join("; "), tr.join("; "), rs.join("; "))
 }
 
 struct Ctx {
@@ -642,6 +642,8 @@ struct Ctx {
     coq_budget: usize,
     rng: Rng,
     runs: u64,
+    lazy_seen: u64,
+    lazy_all: bool,
 }
 
 impl Ctx {
@@ -1277,7 +1279,7 @@ impl Ctx {
         if !ext && (to_coq || !o.failures.is_empty()) && self.shards.len() < self.coq_budget && !o.failures.iter().any(|f| f.1.contains("panic")) {
             let mut c = cj.clone();
             c["impl_obs"] = json!(o.obs.iter().map(|r| r.iter().map(|x| x.to_string()).collect::<Vec<_>>()).collect::<Vec<_>>());
-            let term = format!("inr ({}, [{}], [{}])", coq_bool(leave),
+            let term = format!("CSeq ({}, [{}], [{}])", coq_bool(leave),
                 ops.iter().map(|x| x.coq()).collect::<Vec<_>>().join("; "),
                 o.obs.iter().map(|r| coq_z_list(r.iter().cloned())).collect::<Vec<_>>().join("; "));
             self.shards.push(term, c);
@@ -1470,6 +1472,8 @@ pub fn run(args: &Args) {
         coq_budget: if args.thorough { 7500 } else { 1500 },
         rng: Rng::new(args.seed),
         runs: 0,
+        lazy_seen: 0,
+        lazy_all: args.replay.is_some(),
     };
     for l in 0..5u8 { cx.sum.cell_status(&format!("conc/L{}", l), "M+S"); cx.sum.cell_status(&format!("concx/L{}", l), "M+S"); }
     cx.sum.cell_status("seq", "M+S");
@@ -1595,6 +1599,7 @@ pub fn run(args: &Args) {
     }
     // 4c. the lazy free list on its own: queues longer than one and two bulk thresholds, reclaimed at every cut point
     cx.sum.dist_max("phase_ms_enumerated_histories", t0.elapsed().as_millis() as u64);
+    cx.coq_budget = total_coq;
     lazy_cells(&mut cx, args.thorough);
     cx.sum.dist_max("phase_ms_lazy", t0.elapsed().as_millis() as u64);
     // 4d. oracle breadth: the staged family over three doors, long generated histories, random histories over the whole operation set
@@ -1844,7 +1849,12 @@ fn lazy_case_g(cx: &mut Ctx, threshold: u64, script: &[(u64, u64)], gen: Option<
         None => (script, json!({"cell": "lazy", "threshold": threshold, "script": script.iter().map(|(a, b)| json!([a, b])).collect::<Vec<_>>()})),
     };
     cx.sum.eval(cell, &cj.to_string(), script.len() >= 3);
+    // what the list showed, operation by operation (compared with coq/C16/ModelLazy.v `lrun` + `ldrain`):
+    // push / clear_stats: [len]; a processing call: [1, returned count, len afterwards, freed ages ...]; a gated call that did
+    // not fire: [0, len]; then one entry per drain round
+    let obs: std::cell::RefCell<Vec<Vec<u64>>> = Default::default();
     let r = guarded(|| -> Option<String> {
+        let mut obs = obs.borrow_mut();
         let mut l = match threshold {
             LAZY_NEW => LazyFreeList::new(), LAZY_DEFAULT => LazyFreeList::default(), LAZY_UNLIMITED => LazyFreeList::with_bulk_threshold(usize::MAX),
             t => LazyFreeList::with_bulk_threshold(t as usize),
@@ -1854,16 +1864,19 @@ fn lazy_case_g(cx: &mut Ctx, threshold: u64, script: &[(u64, u64)], gen: Option<
         for (step, &(op, v)) in script.iter().enumerate() {
             if op == 0 {
                 l.push(LazyFreeItem::new(v, next_id, 8)); shadow.push_back((v, next_id)); next_id += 1;
+                obs.push(vec![l.len() as u64]);
             } else if op == 3 {
                 l.clear_stats();
+                obs.push(vec![l.len() as u64]);
             } else {
                 // what the list's own predicate says about the oldest item: never "free" at or after its version
                 if let Some(&(a, id)) = shadow.front() {
                     if a >= v && LazyFreeItem::new(a, id, 8).can_free(v) { return Some(format!("step {}: can_free({}) is true for an item retired at version {}", step, v, a)); }
                 }
-                if op == 2 && !l.should_bulk_process() { continue; }
+                if op == 2 && !l.should_bulk_process() { obs.push(vec![0, l.len() as u64]); continue; }
                 let mut freed: Vec<(u64, u32)> = vec![];
                 let n = l.process_safe_items(v, |it| freed.push((it.age, it.memory_offset)));
+                { let mut o = vec![1, n as u64, l.len() as u64]; o.extend(freed.iter().map(|f| f.0)); obs.push(o); }
                 if n != freed.len() { return Some(format!("step {}: process_safe_items({}) returned {} but freed {} items", step, v, n, freed.len())); }
                 for f in &freed {
                     if f.0 >= v { return Some(format!("step {}: item of age {} was freed although min_version is {} (a token of version {} may still see it)", step, f.0, v, v)); }
@@ -1876,7 +1889,8 @@ fn lazy_case_g(cx: &mut Ctx, threshold: u64, script: &[(u64, u64)], gen: Option<
         let mut rounds = 0;
         while !shadow.is_empty() && rounds < 10_000 {
             let mut freed: Vec<(u64, u32)> = vec![];
-            l.process_safe_items(u64::MAX, |it| freed.push((it.age, it.memory_offset)));
+            let n = l.process_safe_items(u64::MAX, |it| freed.push((it.age, it.memory_offset)));
+            { let mut o = vec![1, n as u64, l.len() as u64]; o.extend(freed.iter().map(|f| f.0)); obs.push(o); }
             if freed.is_empty() { return Some(format!("drain: {} items are queued, none can be seen any more, yet nothing is freed", shadow.len())); }
             for f in &freed { match shadow.pop_front() { Some(x) if x == *f => {}, other => return Some(format!("drain: freed item {:?} is not the oldest queued item {:?}", f, other)) } }
             rounds += 1;
@@ -1887,11 +1901,24 @@ fn lazy_case_g(cx: &mut Ctx, threshold: u64, script: &[(u64, u64)], gen: Option<
     match r {
         Err(p) => cx.sum.fail(cell, None, cj, &format!("panicked: {}", p)),
         Ok(Some(m)) => cx.sum.fail(cell, None, cj, &m),
-        Ok(None) => {}
+        Ok(None) => {
+            // replayed by the model: the scripts that are spelled out (every `coq_every`-th one; any replayed case)
+            let n = cx.lazy_seen; cx.lazy_seen += 1;
+            if gen.is_none() && script.len() <= 400 && (cx.lazy_all || n % 6 == 0) && cx.shards.len() < cx.coq_budget {
+                let thr: u64 = match threshold { LAZY_NEW | LAZY_DEFAULT => LazyFreeList::BULK_FREE_NUM as u64, LAZY_UNLIMITED => usize::MAX as u64, t => t };
+                let ops: Vec<String> = script.iter().map(|&(op, v)| match op { 0 => format!("LPush {}", v), 1 => format!("LProcess {}", v), 2 => format!("LGated {}", v), _ => "LClearStats".to_string() }).collect();
+                let ob = obs.borrow();
+                let obs_s: Vec<String> = ob.iter().map(|o| coq_n_list(o.iter().map(|&x| x as u128))).collect();
+                let mut c = cj.clone();
+                c["impl_obs"] = json!(ob.iter().map(|o| o.iter().map(|x| x.to_string()).collect::<Vec<_>>()).collect::<Vec<_>>());
+                cx.shards.push(format!("CLazy ({}%N, [{}]%N, [{}]%N)", thr, ops.join("; "), obs_s.join("; ")), c);
+                cx.sum.dist("lazy_scripts_replayed_by_the_model");
+            }
+        }
     }
 }
 fn lazy_cells(cx: &mut Ctx, thorough: bool) {
-    cx.sum.cell_status("lazy_free_list", "S-only");
+    cx.sum.cell_status("lazy_free_list", "M+S");
     for &th in &[LAZY_NEW, 0, 1, 2, 5, 32, LAZY_DEFAULT, LAZY_UNLIMITED] {
         let t = if th >= LAZY_DEFAULT { 32 } else { th.max(1) } as u64;
         for &n in &[0u64, 1, t - 1 + (t == 1) as u64, t, t + 1, 2 * t - 1, 2 * t, 2 * t + 1, 3 * t + 7] {
